@@ -43,6 +43,10 @@ def requests(tier, rng):
                 p = list(bg); p[pos] = v
                 L.append("poly::chknorm %s %d" % (fmt(p), b))
         L.append("poly::chknorm %s %d" % (fmt(bg), b))
+        if 1 <= b <= 6283009:
+            for cnt in (256, 255, 128, 2):
+                L.append("poly::chknorm %s %d" % (fmt([b if j < cnt else 0 for j in range(256)]), b))
+                L.append("poly::chknorm %s %d" % (fmt([-b if j >= 256 - cnt else 0 for j in range(256)]), b))
     for b in (0, -1, 2**31 - 1, -2**31, QB + 2, 2 * QB):
         L.append("poly::chknorm %s %d" % (fmt([0] * 256), b))
         L.append("poly::chknorm %s %d" % (fmt([1] + [0] * 255), b))
@@ -60,6 +64,19 @@ def requests(tier, rng):
                             v2 = [list(p) for p in bgs]
                             v2[comp][pos] = v
                             L.append("polyvec::%s::%s %s %d" % (lv, fn, ";".join(fmt(p) for p in v2), b))
+                # rows in which all 256 coefficients offend (and 255, 128, 2): a count that does not fit a byte, a sum of
+                # flags, a parity -- anything but "some coefficient offends" goes wrong here
+                for comp in range(n):
+                    for cnt in (256, 255, 128, 2):
+                        for sg in (1, -1):
+                            if b > 6283009 or b < 1:
+                                continue
+                            v2 = [list(p) for p in bgs]
+                            v2[comp] = [sg * b if j < cnt else 0 for j in range(256)]
+                            L.append("polyvec::%s::%s %s %d" % (lv, fn, ";".join(fmt(p) for p in v2), b))
+                if 1 <= b <= 6283009:
+                    L.append("polyvec::%s::%s %s %d" % (lv, fn, ";".join(fmt([-b] * 256) for _ in range(n)), b))
+                    L.append("polyvec::%s::%s %s %d" % (lv, fn, ";".join(fmt([b if (j + i) % 2 else 0 for j in range(256)]) for i in range(n)), b))
     return L
 
 
